@@ -40,6 +40,81 @@ def same(a, b):
     return a == b
 
 
+def prefix_digits(n):
+    """Number of base-128 digits of the prefix that carries the non-negative number n."""
+    assert n >= 0
+    return max(1, -(-n.bit_length() // 7))
+
+
+def max_prefix(obj):
+    """Longest prefix (in base-128 digits) of any element of the encoding of obj:
+    integers carry their magnitude, strings and lists their length, vocabulary
+    words (pb profile) a one-digit index - never longer than the length prefix of
+    the same word sent as a string -, floats none."""
+    if isinstance(obj, (list, tuple)):
+        return max([prefix_digits(len(obj))] + [max_prefix(x) for x in obj])
+    if isinstance(obj, float):
+        return 0
+    if isinstance(obj, int):
+        return prefix_digits(abs(obj))
+    return prefix_digits(len(obj))
+
+
+class Item:
+    """One top-level element of a stream as the reference decoder sees it: `need` =
+    its longest prefix, `over` = it announces a list/string length above SIZE_LIMIT,
+    `value` = what the receiver must produce once the item is accepted (INCOMPLETE:
+    the stream ends inside it, nothing may be produced; UNSPECIFIED: within the
+    limits, but neither acceptance nor refusal is prescribed - no verdict from there on)."""
+
+    def __init__(self, kind, need, value, over=False):
+        self.kind, self.need, self.value, self.over = kind, need, value, over
+
+
+INCOMPLETE = Item  # sentinel (never equal to a decoded value)
+UNSPECIFIED = object()  # sentinel: a well-delimited element within the limits whose acceptance the statement does not settle
+
+
+def judge(items, limit, new_limit=None, after_index=None, unsure_index=None, refused_at=None):
+    """Reference decoder at item level, with a prefix limit that changes once.
+
+    The decoder starts with `limit`.  after_index=k: the limit became new_limit
+    when the receiver was handed item k (every element of items 0..k was judged by
+    the old limit, everything after it by the new one).  unsure_index=c: the limit
+    was changed at a moment when items 0..c-1 had been handed over and item c had
+    not: item c may have been partly judged by either limit - if its longest
+    prefix lies between the two limits there is no verdict on it and the observed
+    outcome is followed (refused_at = index of the item at which the real decoder
+    raised, or None); items after c are judged by the new limit.
+
+    Returns (expected values, refused item or None, no_verdict_used); the refused
+    "item" is UNSPECIFIED when the verdict ends at an item of that kind.
+    """
+    cur = limit
+    expected = []
+    unsure = False
+    for i, it in enumerate(items):
+        if unsure_index is not None and i == unsure_index:
+            lo, hi = min(limit, new_limit), max(limit, new_limit)
+            cur = new_limit
+            if it.over or it.need > hi:
+                return expected, it, unsure
+            if it.need > lo:
+                unsure = True
+                if refused_at == i:
+                    return expected, it, unsure
+        elif it.over or it.need > cur:
+            return expected, it, unsure
+        if it.value is INCOMPLETE:
+            return expected, None, unsure
+        if it.value is UNSPECIFIED:
+            return expected, UNSPECIFIED, unsure
+        expected.append(it.value)
+        if after_index is not None and i == after_index:
+            cur = new_limit
+    return expected, None, unsure
+
+
 def within_limits(obj, prefix_limit):
     """True iff every integer fits a prefix of prefix_limit base-128 digits and
     every string / list is at most SIZE_LIMIT long."""
